@@ -282,8 +282,8 @@ theorem read_spec {key n0 H cs} (hS : Sealed key n0 H cs) (hF : Fresh n0 cs.leng
     (r.unread = [] ∧ ch.wire = [] ∧ r.read n ch = (if ch.closed then .err .eof else .blocked, r, ch)) ∨
     (∃ w rest, r.unread = [] ∧ ch.wire = w :: rest ∧ H[j]? = some w ∧ ∃ (hj : j < cs.length),
         r.read n ch = (.data (cs[j].take n), ⟨key, nonceAt n0 (j + 1), cs[j].drop n⟩, { ch with wire := rest })) ∨
-    (∃ w rest e, r.unread = [] ∧ ch.wire = w :: rest ∧ H[j]? ≠ some w ∧
-        r.read n ch = (.err e, r, { ch with wire := rest })) := by
+    (∃ w rest e ch', r.unread = [] ∧ ch.wire = w :: rest ∧ H[j]? ≠ some w ∧
+        r.read n ch = (.err e, r, ch') ∧ (∀ x ∈ ch'.wire, x ∈ ch.wire)) := by
   by_cases hu : r.unread = []
   · right
     cases hwire : ch.wire with
@@ -311,11 +311,23 @@ theorem read_spec {key n0 H cs} (hS : Sealed key n0 H cs) (hF : Fresh n0 cs.leng
         | some p => exact absurd (open_only_honest hS hF hAw hR.le hop) hget
         | none =>
           cases w with
-          | cut => exact ⟨.cut, rest, .short, hu, rfl, hget, by simp [Reader.read, hu, hwire]⟩
+          | cut =>
+            cases rest with
+            | nil =>
+              exact ⟨.cut, [], .short, ⟨[], ch.closed⟩, hu, rfl, hget, by simp [Reader.read, hu, hwire], by simp⟩
+            | cons x rest' =>
+              refine ⟨.cut, x :: rest', .decrypt, ⟨.cut :: rest', ch.closed⟩, hu, rfl, hget,
+                by simp [Reader.read, hu, hwire], ?_⟩
+              intro y hy
+              simp only [List.mem_cons] at hy ⊢
+              rcases hy with hy | hy
+              · exact Or.inl hy
+              · exact Or.inr (Or.inr hy)
           | garbage id =>
-            exact ⟨_, rest, .decrypt, hu, rfl, hget, by simp [Reader.read, hu, hwire, openWire]⟩
+            exact ⟨_, rest, .decrypt, ⟨rest, ch.closed⟩, hu, rfl, hget, by simp [Reader.read, hu, hwire, openWire],
+              fun y hy => List.mem_cons_of_mem _ hy⟩
           | sealed k nn p =>
-            refine ⟨_, rest, .decrypt, hu, rfl, hget, ?_⟩
+            refine ⟨_, rest, .decrypt, ⟨rest, ch.closed⟩, hu, rfl, hget, ?_, fun y hy => List.mem_cons_of_mem _ hy⟩
             simp only [Reader.read, hu, hwire, hR.key, hR.nonce, hop]
             simp
   · left; exact ⟨hu, by simp [Reader.read, hu]⟩
@@ -332,7 +344,7 @@ theorem RInv.step {key n0 H cs} (hS : Sealed key n0 H cs) (hF : Fresh n0 cs.leng
     {j r del} (hR : RInv key n0 cs j r del) (ch : Chan) (hA : ∀ w ∈ ch.wire, AttackerItem key H w) (n : Nat) :
     (∃ j', RInv key n0 cs j' (r.read n ch).2.1 (del ++ resData (r.read n ch).1)) ∧
       (∀ w ∈ (r.read n ch).2.2.wire, AttackerItem key H w) := by
-  rcases read_spec hS hF hR ch hA n with ⟨hu, he⟩ | ⟨hu, hw, he⟩ | ⟨w, rest, hu, hw, hg, hj, he⟩ | ⟨w, rest, e, hu, hw, hg, he⟩
+  rcases read_spec hS hF hR ch hA n with ⟨hu, he⟩ | ⟨hu, hw, he⟩ | ⟨w, rest, hu, hw, hg, hj, he⟩ | ⟨w, rest, e, ch', hu, hw, hg, he, hsub⟩
   · rw [he]
     refine ⟨⟨j, hR.key, hR.nonce, hR.le, ?_⟩, hA⟩
     simp only [resData, List.append_assoc, List.take_append_drop]; exact hR.acc
@@ -347,7 +359,7 @@ theorem RInv.step {key n0 H cs} (hS : Sealed key n0 H cs) (hF : Fresh n0 cs.leng
     simp only [hu, List.append_nil] at this
     simp only [resData, List.append_assoc, List.take_append_drop, flatten_take_succ cs j hj, this]
   · rw [he]
-    refine ⟨⟨j, ?_⟩, fun w' hw' => hA w' (by simp [hw] at hw' ⊢; exact Or.inr hw')⟩
+    refine ⟨⟨j, ?_⟩, fun w' hw' => hA w' (hsub w' hw')⟩
     simpa [resData] using hR
 
 theorem readMany_inv {key n0 H cs} (hS : Sealed key n0 H cs) (hF : Fresh n0 cs.length)
@@ -407,7 +419,7 @@ theorem readUntilErr_spec {key n0 H cs} (hS : Sealed key n0 H cs) (hF : Fresh n0
       rcases hw with hw | hw
       · exact Or.inl (List.mem_of_mem_take (List.mem_of_mem_drop hw))
       · exact hA' w hw
-    rcases read_spec hS hF hR _ hA n with ⟨hu, he⟩ | ⟨hu, hw, he⟩ | ⟨w, rest, hu, hw, hg, hj, he⟩ | ⟨w, rest, e, hu, hw, hg, he⟩
+    rcases read_spec hS hF hR _ hA n with ⟨hu, he⟩ | ⟨hu, hw, he⟩ | ⟨w, rest, hu, hw, hg, hj, he⟩ | ⟨w, rest, e, ch', hu, hw, hg, he, hsub⟩
     · -- leftover bytes
       rw [readUntilErr_data he]
       have hR' : RInv key n0 cs j { r with unread := r.unread.drop n } (del ++ r.unread.take n) :=
@@ -648,7 +660,7 @@ theorem readUntilErr_errs {key n0 H cs} (hS : Sealed key n0 H cs) (hF : Fresh n0
       rcases hw with hw | hw
       · exact Or.inl (List.mem_of_mem_take (List.mem_of_mem_drop hw))
       · exact hA' w hw
-    rcases read_spec hS hF hR _ hA n with ⟨hu, he⟩ | ⟨hu, hw, he⟩ | ⟨w, rest, hu, hw, hg, hj, he⟩ | ⟨w, rest, e, hu, hw, hg, he⟩
+    rcases read_spec hS hF hR _ hA n with ⟨hu, he⟩ | ⟨hu, hw, he⟩ | ⟨w, rest, hu, hw, hg, hj, he⟩ | ⟨w, rest, e, ch', hu, hw, hg, he, hsub⟩
     · rw [readUntilErr_data he]
       have hR' : RInv key n0 cs j { r with unread := r.unread.drop n } (del ++ r.unread.take n) :=
         ⟨hR.key, hR.nonce, hR.le, by simp only [List.append_assoc, List.take_append_drop]; exact hR.acc⟩
